@@ -17,6 +17,18 @@ CHECKS = {
  "C08": ("Theorems (Props/C08.v) over the hand model of the receive and send loops: the receive loop returns the first `need` bytes under every segmentation; a well-formed request is dispatched identically (state, calls, replies, stream rest) under every cut of its bytes incl. byte-by-byte; end-of-stream at a boundary gives Disconnected, inside the header PartialMessage, inside the body InvalidMessage, never a dispatch; the send loop emits a prefix of the message, each byte once and in order, descriptors with the first accepted write only, for every partial-write oracle; get_sub_iovs_offset points at the continuation byte. Correspondence: family seg forces every characteristic 2-split, 3-splits, byte-by-byte and truncations on the real server through an interposed recvmsg; family iovs runs the real get_sub_iovs_offset.",
          "Partial: the two loops are hand-modelled (Model/Transport.v) and tied by correspondence; 'never blocks' is the model's explicit end-of-stream, i.e. the kernel's 0-byte read is assumed. Frontend-side receive paths use the same Endpoint loops; their parsers are not yet in the model. Trusted base as C04.",
          "Coq proof (induction over segmentations / partial-write oracles) + forced-segmentation correspondence", "DESIGN.md section 7 C08"),
+ "C01": ("Theorems (Props/C01.v): every regenerated constant table (three request spaces, header flags, virtio/protocol feature bits, flag sets, size limits) equals the transcribed specification table; every wire struct has the specified size and field offsets under the C/packed layout rules; the header constructor yields le32 code ++ le32 ((flags & 0xc) | 1) ++ le32 size for all u32 values (version 1, only REPLY/NEED_REPLY); little-endian round trips. Correspondence: family fe captures the exact bytes and SCM_RIGHTS of every frontend operation with a raw peer and Spec/FeSpec.v compares them with the independent specification encoding; family be does the same for backend replies/acks.",
+         "Partial: per-operation transmit/receive theorems (model bytes = spec encoding for all field values) are not yet proved - that clause is decided by the correspondence against Spec/FeSpec.v only; proxy and GPU channels: constants, layouts and header only. Trusted: Coq kernel, rs2v, Spec/WireConsts.v + Spec/FeSpec.v transcription, extraction + driver, harness.",
+         "Coq proof (finite table equalities over regenerated tables; all-values header lemma) + byte-exact differential correspondence against an independent spec encoder", "DESIGN.md section 7 C01"),
+ "C02": ("Model-level theorems (Props/C02.v): locally rejected calls write nothing and keep the state; per request code exactly one handler of the specified name (regenerated arm table); every frontend operation sends exactly its own code (regenerated table); at most one reply per request. The end-to-end clause is decided by correspondence: family fe (request bytes = spec encoding of the caller's arguments, local rejections silent) and family be (handler invoked with the decoded arguments and the same descriptors, by inode).",
+         "Partial: no composed session theorem yet (frontend model o transport o backend model); the equality of arguments end to end rests on the two byte-exact correspondences against the same specification encoding. Trusted base as C01/C04.",
+         "Coq proof (model lemmas + finite table proofs) + differential correspondence on both endpoints against one spec encoding", "DESIGN.md section 7 C02"),
+ "C03": ("Model-level theorems (Props/C03.v): a value returned by a reply-bearing call is decoded from a header-valid REPLY carrying the request's own code; an acknowledged operation succeeds only on a zero status; the backend's acknowledgement is 0 iff the handler succeeded. Correspondence: family fe with conformant and failure replies (non-zero status, zero-size config, missing file, 0x101 state) judged by Spec/FeSpec.v (returned values = decoded reply; failures are errors); the stream ends after the scripted reply, so a call that would wait shows up as an error instead of hanging.",
+         "Partial: 'in bounded time' against a live backend that keeps serving is not yet exercised by a real-backend session family (candidate finding F3: GET_CONFIG on handler failure). Trusted base as C01/C04.",
+         "Coq proof (soundness lemmas of the receive paths) + differential correspondence", "DESIGN.md section 7 C03"),
+ "C06": ("Theorems (Props/C06.v): for every byte stream and segmentation, recv_reply / wait_for_ack succeed only if the consumed bytes are a header-valid REPLY with the request's code, no descriptors, valid body (and zero status for acks). Correspondence: family fe replays, for every operation, the conformant reply mutated field by field (code, each flag bit, version, size, body, 0..3 descriptors, truncation, garbage, silence) against the real Frontend; Spec/FeSpec.v flags any accepted non-reply.",
+         "Partial: the proxy, GPU proxy and the frontend's server for backend-initiated requests are not yet covered (planned with C18). The size field of fixed-size replies is not compared by the code; the property does not list it and the check does not demand it. Trusted base as C01.",
+         "Coq proof (soundness of accept conditions over the hand model) + exhaustive-by-field mutation correspondence", "DESIGN.md section 7 C06"),
 }
 m = {
  "version": 1,
@@ -31,7 +43,7 @@ m = {
  "engines": [{"name": "coq-proof+correspondence", "path": "check", "serves_properties": sorted(CHECKS),
               "kind_free_text": "Coq 8.16 theorems over definitions regenerated from /repo by the translator rs2v and over hand models, plus differential correspondence (real crates vs extracted model vs executable spec)"}],
  "checks": [],
- "notes": "see DESIGN.md; known_findings.json lists genuine defects (fixed: F1, F4)",
+ "notes": "see DESIGN.md; known_findings.json lists genuine defects (fixed: F1, F4, F8, F10, F11)",
  "not_applicable": [],
 }
 for pid in sorted(CHECKS):
